@@ -65,3 +65,26 @@ REG.bounded_check("C02.conditions", ["C02"], "C02.conditions",
                           "the isinstance / is / truthiness / == condition-to-constraint translation"],
                   bound="10 atomic conditions on x: Union[int, str, None] (isinstance, is None, truthiness, ==, an opaque call), all ordered pairs under and / or, 80 three-operand shapes with not / nesting, "
                         "x in {1, 0, 's', '', None} x both results of the opaque call: the value that takes a branch at run time belongs to the type x is narrowed to there")
+REG.bounded_check("C05.binding", ["C05"], "C05.bounded",
+                  covers=["Signature.bind_arguments", "signature.preprocess_args (literal * / ** arguments, merging)", "arg_spec.ArgSpecCache.from_signature (def statements)", "the visitor's call-site argument collection"],
+                  bound="180 def signatures (<= 4 parameters: positional-only, positional-or-keyword, *args, keyword-only, **kwargs, every default pattern) x 140 sampled (quick) / all 512 (thorough) call shapes "
+                        "(<= 3 positionals, <= 2 keywords, optional *tuple-literal and **dict-literal): incompatible_call <=> calling the real function raises TypeError; "
+                        "86 signatures (<= 3 parameters) x 11 shapes with list[int] / tuple[int, ...] / dict[str, int] star-arguments: accepted => some expansion (lengths 0-4) binds, "
+                        "rejected => no expansion taking an element from every star-argument binds (known finding D44 skipped)")
+REG.bounded_check("C05.validate", ["C05"], "C05.validate",
+                  covers=["Signature.validate (cross-check of the proved kernel against CPython's parameter rules)"], bound="all parameter lists of <= 3 parameters over 5 kinds x default / required")
+REG.bounded_check("C07.shape_inclusion", ["C07"], "C07.bounded",
+                  covers=["Signature.can_assign", "can_assign_var_positional / can_assign_var_keyword (cross-check)", "arg_spec signatures of def statements"],
+                  bound="86 x 86 pairs of def signatures (<= 3 parameters of all kinds / default patterns): accepted => every one of 40 call shapes (<= 3 positionals, <= 3 keywords) that binds to the expected "
+                        "function binds to the actual one (real calls); 16 x 16 typed pairs over bool/int/object/str: accepted <=> parameter contravariance and return covariance (known finding D5 skipped)")
+REG.bounded_check("C06.calls", ["C06"], "C06.bounded",
+                  covers=["Signature.check_call_with_bound_args (generic pre-pass, resolve_bounds_map, return substitution)", "Signature._check_param_type_compatibility (cross-check)", "arg_spec constructor / dataclass / bound-method signatures, bind_self",
+                          "the inferred type of the call against the runtime result"],
+                  bound="379 calls: 11 single-parameter functions and methods (int, str, float, Optional, Union, List, Tuple, object; instance / class / static method) x 10 literals; two-parameter, defaulted, *args: int, "
+                        "**kwargs: str functions and a dataclass constructor x 36 literal pairs; 5 TypeVar-generic functions (unbounded, bound, constrained): diagnosed <=> some argument outside its declared type (PEP 484 promotions), "
+                        "and the value returned by executing the call belongs to the inferred type")
+REG.bounded_check("C12.totality", ["C12"], "C12.bounded",
+                  covers=["NameCheckVisitor on generated modules (catch-all, location extraction, context rendering)", "annotations._Visitor on odd annotations", "Value.can_assign / is_assignable / unite_values / substitute_typevars / can_overlap / __eq__ / __hash__ / __str__ on generated values"],
+                  bound="120 (quick) / 600 (thorough) modules of 3-8 functions drawn from 118 statement templates (wrong arities, bad operands, undefined names, odd annotations, decorators, classes, comprehensions, lambdas, "
+                        "star-expressions, f-strings, walrus, match, async), all error codes enabled as in the project's tests: no exception, no internal_error, registered code, line inside the file, column inside the line, "
+                        "non-empty message; 36 x 36 pairs of Values (every Value class, TypeVars, empty / nested shapes): the value API returns")
